@@ -5,6 +5,7 @@ import Pcore.Proofs.FilesGlobal
 import Pcore.Proofs.FilesModule
 import Pcore.Proofs.FilesError
 import Pcore.Proofs.FilesAbsent
+import Pcore.Proofs.FilesFlat
 /-!
 # C15 — File-based loading maps names to definition files faithfully
 
@@ -49,6 +50,11 @@ Full statement / proved / missing
   `C15_absent_stays_absent` (proved, full): a name whose key has no source (no core type, no file where the index points
   for it, no member of a type set that sits at its own place) is never answered `found`, at any position of any lookup
   sequence — whatever was looked up, found or reported before.
+* `C15_unqualified_not_routed` (proved, full) — `dependencyLoader.find` routes by first segment only when the name is
+  QUALIFIED: for an unqualified name it is exactly the loop over the members (the global loader first in the flat
+  topology).  `C15_found_iff_flat_unqualified`, `C15_flat_unqualified_outcome` (proved): hence, in the flat topology, a
+  one-segment name through the dependency loader is answered exactly as the global loader's first origin dictates — also
+  when a module of that name exists (without `init_typeset`), in either letter case; the modules read nothing.
 * missing: the "if" half for deeper names, type sets and ancestors that exist (type-set parent search); it is false as
   stated for layouts that define one name twice (`C15_duplicate_redefine`, known finding C15-duplicate-redefine) and the
   error of a misnamed file carries no line (`C15_misnamed_no_line`, known finding C15-misnamed-no-line).  Termination
@@ -289,7 +295,7 @@ theorem C15_error_global (cfg : Cfg) (hv : cfg.via = .g) (name : Name) (s : St) 
     -- a misnamed type set is refused before its members are looked at: evaluate directly
     by_cases hkt : k = .typeset
     · subst hkt
-      obtain ⟨mods, tree, via, gi⟩ := cfg
+      obtain ⟨mods, tree, via, gi, fl⟩ := cfg
       simp only at hv
       subst hv
       unfold loadS load
@@ -331,7 +337,8 @@ example : idx gCfg .g (keyOf ["THING"]) = [["env", "types", "Thing.pp"]] ∧ sys
 
 /-- the outcome (found / wrong definition / parse error with its line / no definition / unreadable) is decided by the
     first origin of the key in the module's index, and that file is the only one read -/
-theorem C15_module_outcome (cfg : Cfg) (mod : String) (hv : cfg.via = .m mod) (hm : isGlobalMod mod = false)
+theorem C15_module_outcome (cfg : Cfg) (mod : String) (hv : cfg.via = .m mod) (hflat : cfg.flat = false)
+    (hm : isGlobalMod mod = false)
     (a b : String) (s : St) (n : Nat)
     (hparts : partsOf [a, b] = some [mod, lowerS b]) (hsys : sysLoad [a, b] = none)
     (hg1 : s.get .g (keyOf [a, b]) = none) (hg2 : s.get .g (keyOf [a]) = none)
@@ -341,9 +348,10 @@ theorem C15_module_outcome (cfg : Cfg) (mod : String) (hv : cfg.via = .m mod) (h
     (hnt : ∀ nm ts, bodyAt cfg.tree p ≠ some (.typ .typeset nm ts)) :
     (loadS (n+9) cfg s [a, b]).1 = plainOutcomeAt cfg (.m mod) [a, b] ∧
     (loadS (n+9) cfg s [a, b]).2.reads = s.reads ++ [p] :=
-  module_plain cfg mod hv hm a b s n hparts hsys hg1 hg2 hm1 hi1 hi2 p ps hi hnt
+  module_plain cfg mod hv hflat hm a b s n hparts hsys hg1 hg2 hm1 hi1 hi2 p ps hi hnt
 
-theorem C15_found_iff_module (cfg : Cfg) (mod : String) (hv : cfg.via = .m mod) (hm : isGlobalMod mod = false)
+theorem C15_found_iff_module (cfg : Cfg) (mod : String) (hv : cfg.via = .m mod) (hflat : cfg.flat = false)
+    (hm : isGlobalMod mod = false)
     (a b : String) (s : St) (n : Nat)
     (hparts : partsOf [a, b] = some [mod, lowerS b]) (hsys : sysLoad [a, b] = none)
     (hg1 : s.get .g (keyOf [a, b]) = none) (hg2 : s.get .g (keyOf [a]) = none)
@@ -353,13 +361,14 @@ theorem C15_found_iff_module (cfg : Cfg) (mod : String) (hv : cfg.via = .m mod) 
     (hnt : ∀ nm ts, bodyAt cfg.tree p ≠ some (.typ .typeset nm ts)) :
     (∃ d, (loadS (n+9) cfg s [a, b]).1 = .found d) ↔
       ((∃ k nm ts, bodyAt cfg.tree p = some (.typ k nm ts) ∧ keyOf nm = keyOf [a, b]) ∨ bodyAt cfg.tree p = some .bare) := by
-  rw [(module_plain cfg mod hv hm a b s n hparts hsys hg1 hg2 hm1 hi1 hi2 p ps hi hnt).1, plainOutcomeAt_found]
+  rw [(module_plain cfg mod hv hflat hm a b s n hparts hsys hg1 hg2 hm1 hi1 hi2 p ps hi hnt).1, plainOutcomeAt_found]
   constructor
   · rintro ⟨p', ps', h', hb⟩
     rw [hi] at h'; cases h'; exact hb
   · intro hb; exact ⟨p, ps, hi, hb⟩
 
-theorem C15_dependency_outcome (cfg : Cfg) (mod : String) (hv : cfg.via = .d) (hmods : cfg.mods.contains mod = true)
+theorem C15_dependency_outcome (cfg : Cfg) (mod : String) (hv : cfg.via = .d) (hflat : cfg.flat = false)
+    (hmods : cfg.mods.contains mod = true)
     (hm : isGlobalMod mod = false) (a b : String) (s : St) (n : Nat)
     (hparts : partsOf [a, b] = some [mod, lowerS b]) (hsys : sysLoad [a, b] = none)
     (hd1 : s.get .d (keyOf [a, b]) = none)
@@ -370,11 +379,12 @@ theorem C15_dependency_outcome (cfg : Cfg) (mod : String) (hv : cfg.via = .d) (h
     (hnt : ∀ nm ts, bodyAt cfg.tree p ≠ some (.typ .typeset nm ts)) :
     (loadS (n+11) cfg s [a, b]).1 = plainOutcomeAt cfg (.m mod) [a, b] ∧
     (loadS (n+11) cfg s [a, b]).2.reads = s.reads ++ [p] :=
-  dependency_plain cfg mod hv hmods hm a b s n hparts hsys hd1 hg1 hg2 hm1 hi1 hi2 p ps hi hnt
+  dependency_plain cfg mod hv hflat hmods hm a b s n hparts hsys hd1 hg1 hg2 hm1 hi1 hi2 p ps hi hnt
 
 /-- through the dependency loader the first lookup already finds the type (fixed defect 80f753b: it used to answer the
     module loader's nil placeholder) -/
-theorem C15_found_iff_dependency (cfg : Cfg) (mod : String) (hv : cfg.via = .d) (hmods : cfg.mods.contains mod = true)
+theorem C15_found_iff_dependency (cfg : Cfg) (mod : String) (hv : cfg.via = .d) (hflat : cfg.flat = false)
+    (hmods : cfg.mods.contains mod = true)
     (hm : isGlobalMod mod = false) (a b : String) (s : St) (n : Nat)
     (hparts : partsOf [a, b] = some [mod, lowerS b]) (hsys : sysLoad [a, b] = none)
     (hd1 : s.get .d (keyOf [a, b]) = none)
@@ -385,7 +395,7 @@ theorem C15_found_iff_dependency (cfg : Cfg) (mod : String) (hv : cfg.via = .d) 
     (hnt : ∀ nm ts, bodyAt cfg.tree p ≠ some (.typ .typeset nm ts)) :
     (∃ d, (loadS (n+11) cfg s [a, b]).1 = .found d) ↔
       ((∃ k nm ts, bodyAt cfg.tree p = some (.typ k nm ts) ∧ keyOf nm = keyOf [a, b]) ∨ bodyAt cfg.tree p = some .bare) := by
-  rw [(dependency_plain cfg mod hv hmods hm a b s n hparts hsys hd1 hg1 hg2 hm1 hi1 hi2 p ps hi hnt).1,
+  rw [(dependency_plain cfg mod hv hflat hmods hm a b s n hparts hsys hd1 hg1 hg2 hm1 hi1 hi2 p ps hi hnt).1,
     plainOutcomeAt_found]
   constructor
   · rintro ⟨p', ps', h', hb⟩
@@ -395,7 +405,8 @@ theorem C15_found_iff_dependency (cfg : Cfg) (mod : String) (hv : cfg.via = .d) 
 /-- a module-relative name with no file anywhere on its route (global loader: `Mod::X`, `Mod`; module: `Mod::X`,
     `init_typeset`): `notfound`, nothing is read, and the only change is a placeholder for that name in the two loaders
     that were asked -/
-theorem C15_absent_module (cfg : Cfg) (mod : String) (hv : cfg.via = .m mod) (hm : isGlobalMod mod = false)
+theorem C15_absent_module (cfg : Cfg) (mod : String) (hv : cfg.via = .m mod) (hflat : cfg.flat = false)
+    (hm : isGlobalMod mod = false)
     (a b : String) (s : St) (n : Nat)
     (hparts : partsOf [a, b] = some [mod, lowerS b]) (hparts1 : partsOf [a] = some [mod])
     (hsys : sysLoad [a, b] = none)
@@ -405,7 +416,7 @@ theorem C15_absent_module (cfg : Cfg) (mod : String) (hv : cfg.via = .m mod) (hm
     (hi3 : idx cfg (.m mod) (keyOf [a, b]) = []) (hi4 : idx cfg (.m mod) ["init_typeset"] = []) :
     loadS (n+9) cfg s [a, b] = (.notfound, (s.put .g (keyOf [a, b]) none).put (.m mod) (keyOf [a, b]) none) ∧
     (loadS (n+9) cfg s [a, b]).2.reads = s.reads := by
-  have h := module_absent cfg mod hv hm a b s n hparts hparts1 hsys hg1 hg2 hm1 hm2 hi1 hi2 hi3 hi4
+  have h := module_absent cfg mod hv hflat hm a b s n hparts hparts1 hsys hg1 hg2 hm1 hm2 hi1 hi2 hi3 hi4
   exact ⟨h, by rw [h]; rfl⟩
 
 def modCfg (via : Lid) : Cfg :=
@@ -427,6 +438,52 @@ example : partsOf ["MYMOD", "thing"] = some ["mymod", lowerS "thing"] ∧ sysLoa
     partsOf ["Mymod"] = some ["mymod"] ∧ idx (modCfg (.m "mymod")) (.m "mymod") ["init_typeset"] = [] ∧
     idx (modCfg (.m "mymod")) (.m "mymod") (keyOf ["Mymod", "Nope"]) = [] ∧
     (loadS 9 (modCfg (.m "mymod")) {} ["Mymod", "Nope"]).1 = .notfound := by
+  decide
+
+/-! ## the dependency loader never routes an unqualified name by its first segment -/
+
+theorem C15_unqualified_not_routed (n : Nat) (cfg : Cfg) (name : Name) (hq : qualified name = false) :
+    dFind (n+1) cfg name = dMembers n cfg name :=
+  dFind_unqualified n cfg name hq
+
+/-- flat topology (the global loader is the first member of the dependency loader): a one-segment name is answered as the
+    global loader's first origin dictates, whatever the modules are called — a module of the same name only matters when
+    it has an `init_typeset` — and that origin is the only file read -/
+theorem C15_flat_unqualified_outcome (cfg : Cfg) (hv : cfg.via = .d) (hflat : cfg.flat = true) (a x : String) (s : St)
+    (n : Nat) (hparts : partsOf [a] = some [x]) (hsys : sysLoad [a] = none)
+    (hd : s.get .d (keyOf [a]) = none) (hg : s.get .g (keyOf [a]) = none)
+    (hmd : ∀ m d, s.get (.m m) (keyOf [a]) ≠ some (some d))
+    (hmods : ∀ m ∈ cfg.mods, isGlobalMod m = false ∧ (m = x → idx cfg (.m m) ["init_typeset"] = []))
+    (hnt : ∀ p ps nm ts, idx cfg .g (keyOf [a]) = p :: ps → bodyAt cfg.tree p ≠ some (.typ .typeset nm ts)) :
+    (loadS (n + cfg.mods.length + 10) cfg s [a]).1 = plainOutcomeAt cfg .g [a] ∧
+    (loadS (n + cfg.mods.length + 10) cfg s [a]).2.reads = s.reads ++ (idx cfg .g (keyOf [a])).head?.toList :=
+  flat_unqualified cfg hv hflat a x s n hparts hsys hd hg hmd hmods hnt
+
+theorem C15_found_iff_flat_unqualified (cfg : Cfg) (hv : cfg.via = .d) (hflat : cfg.flat = true) (a x : String) (s : St)
+    (n : Nat) (hparts : partsOf [a] = some [x]) (hsys : sysLoad [a] = none)
+    (hd : s.get .d (keyOf [a]) = none) (hg : s.get .g (keyOf [a]) = none)
+    (hmd : ∀ m d, s.get (.m m) (keyOf [a]) ≠ some (some d))
+    (hmods : ∀ m ∈ cfg.mods, isGlobalMod m = false ∧ (m = x → idx cfg (.m m) ["init_typeset"] = []))
+    (hnt : ∀ p ps nm ts, idx cfg .g (keyOf [a]) = p :: ps → bodyAt cfg.tree p ≠ some (.typ .typeset nm ts)) :
+    (∃ d, (loadS (n + cfg.mods.length + 10) cfg s [a]).1 = .found d) ↔
+      ∃ p ps, idx cfg .g (keyOf [a]) = p :: ps ∧
+        ((∃ k nm ts, bodyAt cfg.tree p = some (.typ k nm ts) ∧ keyOf nm = keyOf [a]) ∨ bodyAt cfg.tree p = some .bare) := by
+  rw [(flat_unqualified cfg hv hflat a x s n hparts hsys hd hg hmd hmods hnt).1, plainOutcomeAt_found]
+
+def flatCfg : Cfg :=
+  { mods := ["other", "billing"], via := .d, flat := true,
+    tree := [(["env", "types", "billing.pp"], .typ .alias ["Billing"] []),
+             (["modules", "billing", "types", "invoice.pp"], .typ .object ["Billing", "Invoice"] [])] }
+
+/-- non-vacuity: a global type named like a module (which has no `init_typeset`), looked up in both letter cases, and the
+    module's own qualified type next to it -/
+example : partsOf ["BILLING"] = some ["billing"] ∧ sysLoad ["BILLING"] = none ∧
+    idx flatCfg .g (keyOf ["BILLING"]) = [["env", "types", "billing.pp"]] ∧
+    idx flatCfg (.m "billing") ["init_typeset"] = [] ∧
+    (runLoads 14 flatCfg {} [["BILLING"], ["billing"], ["Billing", "Invoice"], ["Other"]]).1 =
+      [.found ⟨.alias, ["Billing"]⟩, .found ⟨.alias, ["Billing"]⟩, .found ⟨.object, ["Billing", "Invoice"]⟩, .notfound] ∧
+    (runLoads 14 flatCfg {} [["BILLING"], ["billing"], ["Billing", "Invoice"], ["Other"]]).2.reads =
+      [["env", "types", "billing.pp"], ["modules", "billing", "types", "invoice.pp"]] := by
   decide
 
 /-! ## error lookups bind nothing; a name without a source stays absent whatever happened before -/
